@@ -381,6 +381,28 @@ pub fn families(thorough: bool) -> Vec<Family> {
         let n = base.len();
         f.push(Family { name: "prefixes of a document with A2ML, CRLF".into(), count: n, gen: Box::new(move |i| base.replace(' ', "\r\n").as_bytes()[..i.min(base.replace(' ', "\r\n").len())].to_vec()), configs: two.clone() });
     }
+    // (5b) the A2ML definitions of the C18 generator (depth 1) crossed with hostile IF_DATA contents
+    {
+        let defs: Vec<String> = vcore::a2mlref::definitions(1, false).iter().map(|d| vcore::a2mlref::print_definition(d, false)).collect();
+        let hostile: Vec<&'static str> = vec![
+            "", "A1", "A1 A1 A1", "/begin A1 /end A1", "/begin A1", "/begin A1 /begin A1 /end A1", "A1 /end A1", "1 2 3 4 5 6 7 8", "\"s\" \"s\"", "E1 E1", "/begin B1 1 /end B1 /begin B1 2 /end B1 B1",
+            "A1 1 A1 2 B1 /begin A1 3 /end A1", "0x /end", "A1 0xFFFFFFFFFFFFFFFFFF", "A1 -", "A1 \"unterminated", "/begin A1 /end B1", "/end IF_DATA /end IF_DATA", "A1 /begin IF_DATA /end IF_DATA", "/include x",
+        ];
+        let (defs, hostile) = (std::sync::Arc::new(defs), std::sync::Arc::new(hostile));
+        let n = defs.len() * hostile.len();
+        let pre2 = pre.clone();
+        let post2 = post.clone();
+        f.push(Family {
+            name: "generated A2ML definitions x hostile IF_DATA".into(),
+            count: n,
+            gen: Box::new(move |i| {
+                let d = &defs[i / hostile.len()];
+                let h = hostile[i % hostile.len()];
+                format!("{pre2}/begin A2ML {d} /end A2ML /begin IF_DATA {h} /end IF_DATA{post2}").into_bytes()
+            }),
+            configs: two.clone(),
+        });
+    }
     // (6) nesting ladder
     f.push(Family {
         name: "nesting ladder".into(),
